@@ -244,7 +244,7 @@ def for_seq(ex, s, st, it, item_of=None, index_values=None):
     def bind(h0):
         i0 = fresh('i', IntSort()); h0.assume(0 <= i0, i0 < n)
         _assume_inv(h0, LoopCtx(key, st, h0, pre, i=i0, n=n, arr=arr), inv)
-        item0 = item_of(i0) if item_of else ZV('ref', Val.ref(arr[i0]), elem0[4:]) if elem0.startswith('ref:') else ZV('val', arr[i0])
+        item0 = item_of(i0) if item_of else ZV('ref', Val.ref(asel(arr, i0)), elem0[4:]) if elem0.startswith('ref:') else ZV('val', asel(arr, i0))
         return [s2 for s2, f2 in ex.assign(h0, s.target, item0)]
     h = havoc_loop(ex, st, s.body, extra_names=_target_names(s.target), bind=bind)
     res = []
@@ -260,7 +260,7 @@ def for_seq(ex, s, st, it, item_of=None, index_values=None):
         _assume_inv(hk, LoopCtx(key, st, hk, pre, i=i, n=n, arr=arr), inv)
         b = hk.copy(); b.assume(i < n); b.label(f'loop[{key}].body' + ('' if k is None else f'@{k}'))
         if ex.feasible(b):
-            item = item_of(i) if item_of else ZV('ref', Val.ref(arr[i]), elem[4:]) if elem.startswith('ref:') else ZV('val', arr[i])
+            item = item_of(i) if item_of else ZV('ref', Val.ref(asel(arr, i)), elem[4:]) if elem.startswith('ref:') else ZV('val', asel(arr, i))
             for s2, f2 in ex.assign(b, s.target, item):
                 for s3, f3 in ex.run_block(s.body, s2):
                     if f3 is NEXT or f3[0] == 'continue':
